@@ -193,6 +193,17 @@ func (w *w1World) checkSettled() {
 			}
 		}
 	}
+	// C37: never more subscriptions than the channel limit
+	if lim := w.sc.Cfg.ChannelLimit; lim > 0 {
+		for _, cl := range w.clients {
+			if cl.never() || cl.isClosed() || cl.observer {
+				continue
+			}
+			if n := len(cl.client.Channels()); n > lim {
+				s.Violate("C37", "channel-limit-exceeded", "more subscriptions than ClientChannelLimit", "client %d holds %d subscriptions %v, limit %d", cl.idx, n, cl.client.Channels(), lim)
+			}
+		}
+	}
 	// C26: the node is broker-subscribed to exactly the channels with local subscribers
 	if w.pubsub != nil {
 		chs := map[string]bool{}
@@ -580,6 +591,10 @@ func (w *w1World) checkClientLog(cl *w1SimClient) {
 		w.checkPositioned(in)
 	}
 	cl.instances = instances
+	// ---- C37
+	if w.prop == "C37" {
+		w.checkLimits(cl, instances)
+	}
 	// ---- C36
 	if w.prop == "C36" {
 		w.checkLiveness(cl)
@@ -1153,6 +1168,53 @@ func (w *w1World) checkLiveness(cl *w1SimClient) {
 		due := exp + grace + time.Second + tol
 		if closedAt > due && runEnd > due {
 			s.Violate("C36", "expired-missing", "expired connection not closed", "client %d: expiry at %v + grace %v, still open at %v (closed at %v code %d)", cl.idx, exp, grace, due, closedAt, cl.closeCode)
+		}
+	}
+}
+
+// checkLimits is the C37 oracle.
+func (w *w1World) checkLimits(cl *w1SimClient, instances []*w1Instance) {
+	s := w.s
+	cfg := w.sc.Cfg
+	// (a) the channel limit is judged on the server's own report at the settled point
+	// (checkSettled): the client's view of how many subscriptions are active is not
+	// reliable while server-side subscribe/unsubscribe pushes can overtake each other
+	// (see the C10 known findings).
+	s.Probe("nontrivial:C37")
+	// (b) over-long channel names are rejected
+	if cfg.ChannelMaxLen > 0 {
+		for _, c := range cl.cmds {
+			if c.Kind != "subscribe" || len(c.Ch) <= cfg.ChannelMaxLen {
+				continue
+			}
+			for _, f := range cl.frames {
+				if f.ReplyID == c.ID && c.ID != 0 && f.Kind == "subscribe" && f.ErrCode == 0 {
+					s.Violate("C37", "long-channel-accepted", "subscribe to over-long channel name accepted", "client %d subscribed to %q (%d bytes, ChannelMaxLength %d)", cl.idx, c.Ch, len(c.Ch), cfg.ChannelMaxLen)
+				}
+			}
+		}
+	}
+	// (c) slow consumer: a stalled peer with clearly more than the queue limit pending
+	if cfg.QueueMax > 0 && cl.stalledAtSeq != 0 && cl.onConnectRan {
+		pending := 0
+		for _, pr := range w.pubs {
+			if pr.Seq < cl.stalledAtSeq || pr.Err != "" {
+				continue
+			}
+			// publications to channels the client was certainly subscribed to at that time
+			for _, in := range instances {
+				if in.ch == pr.Ch && in.startSeq < cl.stalledAtSeq && (in.endSeq == 0) {
+					pending += len(pr.Data)
+				}
+			}
+		}
+		if pending > 2*cfg.QueueMax {
+			s.Probe("c37_slow_expected")
+			if !cl.isClosed() || cl.closeCode != DisconnectSlow.Code {
+				if !(cl.isClosed() && cl.closedSeq < cl.stalledAtSeq) {
+					s.Violate("C37", "slow-not-closed", "stalled connection with more than the queue limit pending not closed as slow", "client %d stalled with at least %d bytes of publications pending (limit %d) but closed=%v code=%d", cl.idx, pending, cfg.QueueMax, cl.isClosed(), cl.closeCode)
+				}
+			}
 		}
 	}
 }
